@@ -138,8 +138,27 @@ func genTplValue(r *rand.Rand) string {
 		default:
 			b = append(b, punct[r.Intn(len(punct))])
 		}
+		if r.Intn(14) == 0 {
+			// escapes (raw text): an escaped backtick, backslash, dollar sign; a dollar sign that opens nothing
+			b = append(b, []string{"\\`", "\\\\", "\\$", "$", "\\n", "\\\\\\`", "\\${", "$ {", "\\\\\\${"}[r.Intn(9)]...)
+		}
 	}
-	return string(b)
+	// no live substitution: a `{` directly after an unescaped `$` is moved away
+	out := make([]byte, 0, len(b)+2)
+	esc := false
+	for i := 0; i < len(b); i++ {
+		out = append(out, b[i])
+		if esc {
+			esc = false
+			continue
+		}
+		if b[i] == '\\' {
+			esc = true
+		} else if b[i] == '$' && i+1 < len(b) && b[i+1] == '{' {
+			out = append(out, ' ')
+		}
+	}
+	return string(out)
 }
 
 func (g *gen) atom() *Node {
